@@ -59,11 +59,12 @@ theorem removeSeq_rel_post (run : ProbeRunner) : ∀ (l : List Ent) {w : World} 
     TInv w fl → RowsAlive w → w.isLocked = false →
     (∀ (evt : Nat), w.obs.hasObservers evt = false) →
     (∀ (e : Ent), e ∈ l → 2 ≤ e.id ∧ e.id ∉ fl ∧ w.alive e = true) →
+    (∀ (e : Ent), e ∈ l → e.id < w.pool.ents.length) →
     (l.map (·.id)).Nodup →
     w.tables.length + l.length * w.relationArchetypes.length + 1 ≤ maxU32 →
     2 * w.entities.length < 2 ^ 32 →
     ∃ (w'' : World), removeSeq run l w = .ok () w'' ∧ RemovedAllRelPost w fl l w''
-  | [], w, fl, h, _, _, _, _, _, _, _ =>
+  | [], w, fl, h, _, _, _, _, _, _, _, _ =>
     ⟨w, rfl,
       { tinv := by simpa using h
         pool := rfl
@@ -78,19 +79,20 @@ theorem removeSeq_rel_post (run : ProbeRunner) : ∀ (l : List Ent) {w : World} 
         entitiesLen := rfl
         tablesLen := by simp
         qk := QKeep.refl w }⟩
-  | e :: l, w, fl, h, hR, hl, hno, hlive, hnd, hfew, hrows => by
+  | e :: l, w, fl, h, hR, hl, hno, hlive, hlin, hnd, hfew, hrows => by
     obtain ⟨h2, hnf, ha⟩ := hlive e List.mem_cons_self
+    have hsl := hlin e List.mem_cons_self
     have hnd' : e.id ∉ l.map (·.id) ∧ (l.map (·.id)).Nodup := by
       rw [List.map_cons] at hnd; exact List.nodup_cons.mp hnd
     have hfew1 : w.tables.length + w.relationArchetypes.length + 1 ≤ maxU32 := by
       simp only [List.length_cons, Nat.add_mul, Nat.one_mul] at hfew; omega
-    obtain ⟨w1, hok, rp⟩ := opRemoveEntity_rel_spec run h hl hno h2 hnf ha hfew1 hrows
-    have more := opRemoveEntity_rel_more run h hl hno h2 hnf ha hfew1 hrows hok
-    obtain ⟨w1', hok', q1, hlk⟩ := opRemoveEntity_qkeep run h hl hno h2 hnf ha hfew1 hrows
+    obtain ⟨w1, hok, rp⟩ := opRemoveEntity_rel_spec run h hl hno h2 hnf ha hsl hfew1 hrows
+    have more := opRemoveEntity_rel_more run h hl hno h2 hnf ha hsl hfew1 hrows hok
+    obtain ⟨w1', hok', q1, hlk⟩ := opRemoveEntity_qkeep run h hl hno h2 hnf ha hsl hfew1 hrows
     rw [hok] at hok'
     injection hok' with _ hw
     subst hw
-    obtain ⟨t0, r0, he, ht, hs⟩ := h.link.live_entry h2 hnf ha
+    obtain ⟨t0, r0, he, ht, hs⟩ := h.link.live_entry h2 hnf ha hsl
     have hin : e.id < w.pool.ents.length := (List.getElem?_eq_some_iff.mp hs).1
     have hne : ∀ (e' : Ent), e' ∈ l → e'.id ≠ e.id := by
       intro e' he' heq
@@ -110,7 +112,10 @@ theorem removeSeq_rel_post (run : ProbeRunner) : ∀ (l : List Ent) {w : World} 
       omega
     obtain ⟨w'', hrest, ip⟩ := removeSeq_rel_post run l rp.tinv (q1.rows hR)
       (by show w1.locks.isLocked = false; rw [rp.locks]; exact hl)
-      (fun evt => by rw [rp.obs]; exact hno evt) hlive1 hnd'.2 hfew2
+      (fun evt => by rw [rp.obs]; exact hno evt) hlive1
+      (fun e' he' => by
+        rw [more.pool, (Pool.recycle_spec w.pool fl e h.link.pool h2 hnf hs).2.2.2.1]
+        exact hlin e' (List.mem_cons_of_mem _ he')) hnd'.2 hfew2
       (by rw [rp.entitiesLen]; exact hrows)
     refine ⟨w'', ?_, ?_⟩
     · simp only [removeSeq, M.forM', bind, M.bind, hok]
@@ -298,7 +303,10 @@ theorem opRemoveEntities_rel_eq_singles (run : ProbeRunner) {w : World} {fl : Li
     omega
   obtain ⟨w', hb, pb⟩ := opRemoveEntities_rel_spec run h hR hl hno fo extra hts S hfewB hrows
   obtain ⟨w'', hs, ps⟩ := removeSeq_rel_post run (ts.flatMap (rowsOf w)) h hR hl hno
-    (fun e he => ⟨(u.live e he).1, (u.live e he).2.1, (u.live e he).2.2.1⟩) u.idsNodup hfew hrows
+    (fun e he => ⟨(u.live e he).1, (u.live e he).2.1, (u.live e he).2.2.1⟩)
+    (fun e he => by
+      obtain ⟨t, r, _, hx⟩ := (u.live e he).2.2.2
+      rw [← h.link.lenEq]; exact (List.getElem?_eq_some_iff.mp hx).1) u.idsNodup hfew hrows
   exact ⟨w', w'', hb, hs, pb, ps, by rw [pb.pool, ps.pool]⟩
 
 /-- **order independence**: removing the selected entities one by one in ANY order gives a world
@@ -336,7 +344,11 @@ theorem opRemoveEntities_rel_any_order (run : ProbeRunner) {w : World} {fl : Lis
     have he' := hperm.mem_iff.mp he
     exact ⟨(u.live e he').1, (u.live e he').2.1, (u.live e he').2.2.1⟩
   have hnd : (es'.map (·.id)).Nodup := (hperm.map (·.id)).nodup_iff.mpr u.idsNodup
-  obtain ⟨w'', hs, ps⟩ := removeSeq_rel_post run es' h hR hl hno hlive hnd hfew hrows
+  have hlin : ∀ (e : Ent), e ∈ es' → e.id < w.pool.ents.length := by
+    intro e he
+    obtain ⟨t, r, _, hx⟩ := (u.live e (hperm.mem_iff.mp he)).2.2.2
+    rw [← h.link.lenEq]; exact (List.getElem?_eq_some_iff.mp hx).1
+  obtain ⟨w'', hs, ps⟩ := removeSeq_rel_post run es' h hR hl hno hlive hlin hnd hfew hrows
   obtain ⟨o1, o2, o3, o4, o5, _⟩ := pb.obs_eq ps (fun e => hperm.mem_iff.symm)
   exact ⟨w', w'', hb, hs, pb, ps, o1, o2, o3, o4, o5⟩
 
